@@ -94,7 +94,7 @@ var errWriteFailed = errors.New("write: broken pipe (simulated)")
 
 func (c16) Run(e *Env) {
 	e.ProbeDecl("kind-http", "kind-conn", "kind-cloudwatch", "kind-none", "http-retry", "lost-op-attributed-to-request", "http-client-timeout", "http-429-retry-after", "dial-refused", "write-error", "short-write",
-		"streams-queued-on-sender", "cancel-mid-flush", "cloudwatch-error", "several-batches-per-flush", "empty-flush", "second-stream-while-reconnecting", "siege", "retries-disabled")
+		"streams-queued-on-sender", "cancel-mid-flush", "cloudwatch-error", "several-batches-per-flush", "empty-flush", "second-stream-while-reconnecting", "siege", "retries-disabled", "connection-rotation-after-100-streams")
 	kind := BackendKinds[e.Draw(len(BackendKinds))]
 	spec := BackendSpec{Kind: kind, BatchSize: []int{0, 1, 2, 3, 21}[e.Draw(5)], Compress: e.Bool(), MaxRequests: e.Range(1, 4), FlushInterval: time.Second}
 	spec.RetryWindow = []time.Duration{0, 2 * time.Second, 5 * time.Second, -1}[e.Draw(4)]
@@ -287,6 +287,81 @@ func (c16) Run(e *Env) {
 
 	nSteps := e.Range(4, 50)
 	cancelled := false
+	if faults && bb.Transport == "conn" && e.Chance(1, 15) {
+		// long-lived sender: the sender re-dials after every 100 streams on one connection, a path no
+		// short run reaches. Script: the first dial is refused while a stream arrives (the sender holds
+		// it across the failed dial), the connection then carries more than 100 streams, the re-dial
+		// after the rotation is refused, and the server is shut down while the sender waits to retry.
+		e.Probe("connection-rotation-after-100-streams")
+		e.Unstable("several-shards-queue-streams-on-one-sender")
+		refuseDials := func() bool {
+			any := false
+			for _, p := range conns.DialGate.Parked() {
+				conns.DialGate.Release(p, ConnOutcome{Err: errConnRefused})
+				fault("dial-refused")
+				any = true
+				e.Settle()
+			}
+			return any
+		}
+		e.Settle()
+		refuseDials()
+		send(2)
+		// every dial up to the next flush tick is refused, so the sender is waiting out a failed dial
+		// when the flush hands it the stream: it holds that stream across the failure
+		for left := nextTick(); left > 0; left -= 50 * time.Millisecond {
+			time.Sleep(50 * time.Millisecond)
+			e.Settle()
+			refuseDials()
+		}
+		time.Sleep(137 * time.Microsecond)
+		e.Settle()
+		e.Event("rotation phase: after the first tick: dials=%d conns=%d parked dials=%d writes=%d calls=%d", conns.NDials(), conns.NConns(), conns.DialGate.Len(), conns.WriteGate.Len(), len(wb.snapshot()))
+		done := func() int {
+			n := 0
+			for _, c := range wb.snapshot() {
+				if c.cbs > 0 {
+					n++
+				}
+			}
+			return n
+		}
+		rotated := false
+		for i := 0; i < 400 && !rotated; i++ {
+			// writes succeed; the first connection is granted; the dial that follows the rotation is refused
+			for progressed := true; progressed; {
+				progressed = false
+				for _, p := range conns.WriteGate.Parked() {
+					conns.WriteGate.Release(p, WriteOutcome{N: -1})
+					progressed = true
+					e.Settle()
+				}
+				for _, p := range conns.DialGate.Parked() {
+					if conns.NConns() == 0 {
+						conns.DialGate.Release(p, ConnOutcome{})
+					} else {
+						conns.DialGate.Release(p, ConnOutcome{Err: errConnRefused})
+						fault("dial-refused")
+						rotated = true
+					}
+					progressed = true
+					e.Settle()
+				}
+			}
+			checkCalls()
+			if rotated {
+				break
+			}
+			send(1)
+			time.Sleep(nextTick() + 137*time.Microsecond)
+			e.Settle()
+		}
+		if !rotated {
+			e.Failf("C16/harness", "rotation phase: %d flush requests completed on one connection and the sender never re-dialled", done())
+		}
+		e.Event("rotation phase: %d flush requests completed; re-dial refused; shutting down (dials=%d conns=%d)", done(), conns.NDials(), conns.NConns())
+		cancelled = true
+	}
 	for step := 0; step < nSteps && !cancelled; step++ {
 		e.Settle() // consequences of the previous step's action still carry its step number
 		wb.step.Store(int64(step) + 1)
